@@ -10,6 +10,7 @@ import (
 	"fmt"
 	"net/http"
 	"strings"
+	"sync/atomic"
 
 	"github.com/AdguardTeam/urlfilter"
 	"github.com/AdguardTeam/urlfilter/filterlist"
@@ -233,6 +234,50 @@ var defects = []defect{{
 		got := texts(res.DNSRewrites())
 
 		return fmt.Sprint(got) == "[||e.org^$dnsrewrite=1.2.3.4]", fmt.Sprintf("DNSRewrites=%q", got)
+	},
+}, {
+	id: "D15", prop: "C14", what: "two goroutines missing the cache for one rule get two objects; a concurrent query then reports the rule twice",
+	run: func() (bool, string) {
+		st := storageOf("/banner\n")
+		e := urlfilter.NewNetworkEngineSkipStorageScan(st)
+		sc := st.NewRuleStorageScanner()
+		for sc.Scan() {
+			f, idx := sc.Rule()
+			e.AddRule(f.(*rules.NetworkRule), idx)
+		}
+		// the URL contains the indexed window twice, so one MatchAll looks the rule up twice
+		q := func() *rules.Request { return rules.NewRequest("http://x.com/banner/banner", "", rules.TypeScript) }
+		seq := len(urlfilter.NewNetworkEngine(storageOf("/banner\n")).MatchAll(q()))
+
+		var miss, compile int32
+		g1AtMiss, g1Go := make(chan struct{}), make(chan struct{})
+		g2AtCompile, g2Go := make(chan struct{}), make(chan struct{})
+		filterlist.VerifYieldHook = func(point int) {
+			if point == 1 && atomic.AddInt32(&miss, 1) == 1 {
+				close(g1AtMiss) // goroutine 1 missed the cache: hold it before it reads the list
+				<-g1Go
+			}
+		}
+		rules.VerifYieldHook = func(point int) {
+			if point == 4 && atomic.AddInt32(&compile, 1) == 1 {
+				close(g2AtCompile) // goroutine 2 holds its own object and is about to match it
+				<-g2Go
+			}
+		}
+		defer func() { filterlist.VerifYieldHook, rules.VerifYieldHook = nil, nil }()
+
+		var n1, n2 int
+		done1, done2 := make(chan struct{}), make(chan struct{})
+		go func() { n1 = len(e.MatchAll(q())); close(done1) }()
+		<-g1AtMiss
+		go func() { n2 = len(e.MatchAll(q())); close(done2) }()
+		<-g2AtCompile
+		close(g1Go) // goroutine 1 parses its own object and overwrites the cache entry
+		<-done1
+		close(g2Go) // goroutine 2 continues: its second lookup now hits the other object
+		<-done2
+
+		return n1 == seq && n2 == seq, fmt.Sprintf("sequential=%d concurrent=%d,%d rules", seq, n1, n2)
 	},
 }}
 
